@@ -434,7 +434,8 @@ class Task(object):
         """
         if isinstance(value, valid[0]):
             return
-        if value in valid[1]:
+        # literal values must have the same type (`1 == True`, `1.0 == 1`)
+        if any(type(value) is type(v) and value == v for v in valid[1]):
             return
 
         # input value didnt match any valid type/value, raise exception
